@@ -17,3 +17,16 @@ func verifPermute(deps []NodeDependency) {
 			func(i, j int) { deps[i], deps[j] = deps[j], deps[i] })
 	}
 }
+
+// VerifYield, when set, is called at scheduling points of the deterministic
+// simulation harness. The pinned tree has no synchronisation in this package
+// and therefore no call sites; the harness inserts calls mechanically (in
+// copies, via go build -overlay) before any synchronisation operation a
+// change under test may add. It only ever parks the calling goroutine.
+var VerifYield func(site string)
+
+func verifYield(site string) {
+	if f := VerifYield; f != nil {
+		f(site)
+	}
+}
